@@ -33,6 +33,7 @@ type vClient struct {
 	pings      int
 	observers  map[uint16]couchbase.Observer
 	shutdown   bool
+	isOpen     [vNV]bool // vBucket stream currently open at the server
 }
 
 func (c *vClient) GetDcpAgentConfigSnapshot() (*gocbcore.ConfigSnapshot, error) {
@@ -56,10 +57,12 @@ func (c *vClient) OpenStream(vbID uint16, _ map[uint32]string, _ *models.Offset,
 	}
 	c.observers[vbID] = obs
 	yield()
+	c.isOpen[vbID] = true
 	return nil
 }
 func (c *vClient) CloseStream(vbID uint16) error {
 	c.closes = append(c.closes, vbID)
+	c.isOpen[vbID] = false
 	yield()
 	if obs, ok := c.observers[vbID]; ok {
 		spawnEnv(func() { obs.End(models.DcpStreamEnd{VbID: vbID}, gocbcore.ErrDCPStreamClosed) })
@@ -483,4 +486,27 @@ func vC13Mitigation(parked bool) {
 	}
 	assert(vObserveAfterClose == 0, "rollback-mitigation polling has stopped when Close() returns")
 	assert(len(w.cl.closes) == 2 && w.cl.dcpClosed == 1, "streams and connections closed")
+}
+
+// H_C13_reopen: Close() while the rebalance's reopen is running (the delay
+// timer has fired, stream.Open() is in progress on the timer goroutine): every
+// order of the two at blocking points. Close() returns without crashing, and
+// afterwards nothing is requested, delivered or left open.
+func H_C13_reopen() {
+	setMerge(true)
+	setPreempt(0)
+	w := vNewWorld(nondetBool("auto"), false)
+	w.disc.member = 2
+	freezeSchedule() // the first half of the rebalance and the delay: one schedule
+	w.d.stream.Rebalance()
+	time.Sleep(10*time.Second - time.Millisecond)
+	thawSchedule()
+	time.Sleep(time.Millisecond) // the timer fires now: the reopen and Close() race
+	cover("close-vs-reopen")
+	p, _ := expectPanic(func() { w.d.close() })
+	assert(!p, "Close() during the reopen returns without crashing")
+	w.afterClose()
+	for vb := 0; vb < vNV; vb++ {
+		assert(!w.cl.isOpen[vb], "no vBucket stream is left open at the server after Close()")
+	}
 }
